@@ -257,6 +257,44 @@ func BuildMapChain(st *Store, n int, lp cidlink.LinkPrototype, label string) *Ch
 	return ch
 }
 
+// BuildMapTree stores a DAG with fan-out: a spine of n generic map blocks
+// {"A": leaf, "Next": older spine block, "Val": ..., "Z": leaf}. A selector
+// that explores all links of a node (the subscriber's non-strict one) loads,
+// for every spine block, a link before and a link after the link to the rest
+// of the spine, so every block has links that are loaded after it. Cids holds,
+// per spine position i, the blocks [leafA_i, leafZ_i, spine_i]; the head is
+// the last spine block.
+func BuildMapTree(st *Store, n int, lp cidlink.LinkPrototype, label string) *Chain {
+	lsys := st.LinkSystem()
+	ch := &Chain{}
+	store := func(node ipld.Node) ipld.Link {
+		l, err := lsys.Store(ipld.LinkContext{}, lp, node)
+		if err != nil {
+			panic(err)
+		}
+		ch.Cids = append(ch.Cids, l.(cidlink.Link).Cid)
+		return l
+	}
+	leaf := func(name string, i int) ipld.Link {
+		return store(fluent.MustBuildMap(basicnode.Prototype.Map, 1, func(na fluent.MapAssembler) {
+			na.AssembleEntry("Val").AssignString(fmt.Sprintf("%s-leaf-%s-%d", label, name, i))
+		}))
+	}
+	var next ipld.Link
+	for i := 0; i < n; i++ {
+		a, z := leaf("a", i), leaf("z", i)
+		next = store(fluent.MustBuildMap(basicnode.Prototype.Map, 4, func(na fluent.MapAssembler) {
+			na.AssembleEntry("A").AssignLink(a)
+			if next != nil {
+				na.AssembleEntry("Next").AssignLink(next)
+			}
+			na.AssembleEntry("Val").AssignString(fmt.Sprintf("%s-%d", label, i))
+			na.AssembleEntry("Z").AssignLink(z)
+		}))
+	}
+	return ch
+}
+
 // BuildPaddedMapChain is BuildMapChain with every block padded (a longer
 // "Val" string) to exactly size bytes of DAG-JSON.
 func BuildPaddedMapChain(st *Store, n int, lp cidlink.LinkPrototype, label string, size int) *Chain {
